@@ -297,7 +297,9 @@ Section TplProof.
 
   Lemma tpl_spec : forall f,
     tpl_impl all_fixed args f = subst args (tokenize (sc_view (trim_nl f))).
-  Proof. intros f. unfold tpl_impl. apply scan_spec. Qed.
+  Proof.
+    intros f. unfold tpl_impl. change (sc_in all_fixed (trim_nl f)) with (sc_view (trim_nl f)). apply scan_spec.
+  Qed.
 
   Lemma subst_missing : forall ts n a,
     In (Hole n a) ts -> lookup n args = None -> is_ok (subst args ts) = false.
@@ -336,7 +338,10 @@ Proof.
 Qed.
 
 Lemma sp_spec : forall f args, sp_impl all_fixed f args = ssubst (stokenize (sc_view f)) args.
-Proof. intros f args. unfold sp_impl. apply (sp_spec_n (length (sc_view f))). lia. Qed.
+Proof.
+  intros f args. unfold sp_impl. change (sc_in all_fixed f) with (sc_view f).
+  apply (sp_spec_n (length (sc_view f))). lia.
+Qed.
 
 Lemma stok_lossless_n : forall n s, length s <= n -> suntok (stokenize s) = s.
 Proof.
@@ -530,7 +535,7 @@ Proof.
 Qed.
 
 (* ---------------------------------------------------------------------------------------- *)
-(* text/scanner is transparent on well-formed UTF-8 without a leading BOM *)
+(* text/scanner, as the repaired code uses it, is transparent on well-formed UTF-8 *)
 
 Lemma sc_go_id : forall s k, utf8_go s k = true -> sc_go s k = s.
 Proof.
@@ -540,11 +545,16 @@ Proof.
   - f_equal. apply IH. exact H.
 Qed.
 
-Lemma sc_view_id : forall f, fmt_ok f = true -> sc_view f = f.
-Proof.
-  intros f H. unfold fmt_ok in H. apply andb_true_iff in H as [H1 H2]. apply negb_true_iff in H2.
-  unfold sc_view, drop_bom. rewrite H2. apply sc_go_id. exact H1.
-Qed.
+(* the byte order mark the scanner discards is the one the code put in front *)
+Lemma sc_view_go : forall f, sc_view f = sc_go f 0.
+Proof. reflexivity. Qed.
+
+Lemma sc_view_id : forall f, utf8b f = true -> sc_view f = f.
+Proof. intros f H. rewrite sc_view_go. apply sc_go_id. exact H. Qed.
+
+(* ... and as the code before fixes/C09-5-leading-bom.diff used it, when there is no leading U+FEFF *)
+Lemma sc_raw_id : forall f, utf8b f = true -> has_bom f = false -> sc_raw f = f.
+Proof. intros f H1 H2. unfold sc_raw, drop_bom. rewrite H2. apply sc_go_id. exact H1. Qed.
 
 Lemma rng_iff : forall lo hi c, rng lo hi c = true <-> (lo <= nb c /\ nb c <= hi)%N.
 Proof.
@@ -709,18 +719,18 @@ Proof.
 Qed.
 
 (* on the property's domain the specification does not depend on text/scanner nor on the dumper *)
-Lemma spec_frag_dom : forall s, fmts_ok s = true -> cls_nolit s = false ->
+Lemma spec_frag_dom : forall s, fmts_utf8 s = true -> cls_nolit s = false ->
   spec_frag sc_view Panic s = spec_frag same OutOfFuel s.
 Proof.
   induction s as [|b|f args IH|f args IH|a b|v|d a|l IH|x IH|n o] using snip_ind';
     intros Hf Hn; try reflexivity.
-  - cbn [spec_frag fmts_ok cls_nolit] in *. apply andb_true_iff in Hf as [Hf1 Hf2].
+  - cbn [spec_frag fmts_utf8 cls_nolit] in *. apply andb_true_iff in Hf as [Hf1 Hf2].
     rewrite (sc_view_id _ Hf1). change (same (trim_nl f)) with (trim_nl f). f_equal.
     clear Hf1. revert Hf2 Hn.
     induction IH as [|p r Hp _ IHr]; intros Hf2 Hn; [reflexivity|]. cbn [map forallb existsb] in *.
     apply andb_true_iff in Hf2 as [Ha Hb]. apply orb_false_iff in Hn as [Hc Hd].
     rewrite (IHr Hb Hd). f_equal. f_equal. apply view_of_ext. apply Hp; assumption.
-  - cbn [spec_frag fmts_ok cls_nolit] in *. apply andb_true_iff in Hf as [Hf1 Hf2].
+  - cbn [spec_frag fmts_utf8 cls_nolit] in *. apply andb_true_iff in Hf as [Hf1 Hf2].
     rewrite (sc_view_id _ Hf1). change (same f) with f. f_equal.
     clear Hf1. revert Hf2 Hn.
     induction IH as [|p r Hp _ IHr]; intros Hf2 Hn; [reflexivity|]. cbn [map forallb existsb] in *.
@@ -728,14 +738,14 @@ Proof.
     rewrite (IHr Hb Hd). f_equal.
     destruct p; cbn [sview_of]; try (f_equal; apply Hp; assumption).
     destruct vlit; [reflexivity | cbn in Hc; discriminate].
-  - cbn [spec_frag fmts_ok cls_nolit] in *. revert Hf Hn.
+  - cbn [spec_frag fmts_utf8 cls_nolit] in *. revert Hf Hn.
     induction IH as [|c r Hc _ IHr]; intros Hf Hn; [reflexivity|]. cbn [map forallb existsb] in *.
     apply andb_true_iff in Hf as [Ha Hb]. apply orb_false_iff in Hn as [Hc' Hd].
     rewrite !cat_res_cons, (IHr Hb Hd), (Hc Ha Hc'). reflexivity.
-  - cbn [spec_frag fmts_ok cls_nolit] in *. rewrite (IH Hf Hn). reflexivity.
+  - cbn [spec_frag fmts_utf8 cls_nolit] in *. rewrite (IH Hf Hn). reflexivity.
 Qed.
 
-Lemma render_dom : forall s, fmts_ok s = true -> cls_nolit s = false ->
+Lemma render_dom : forall s, fmts_utf8 s = true -> cls_nolit s = false ->
   render all_fixed s = spec_render same OutOfFuel s.
 Proof.
   intros s Hf Hn. rewrite render_spec. unfold spec_render. rewrite (spec_frag_dom s Hf Hn). reflexivity.
@@ -766,74 +776,20 @@ Lemma fragments_spec : forall x,
 Proof. intros x. cbn [frag]. rewrite is_nil_call_fixed. reflexivity. Qed.
 
 (* ---------------------------------------------------------------------------------------- *)
-(* the guard of render_dom is the complement of the two recorded classes inside the property's domain *)
-
-Lemma forallb_andb : forall {A} (f g : A -> bool) l,
-  forallb (fun x => f x && g x) l = forallb f l && forallb g l.
-Proof.
-  intros A f g l. induction l as [|x r IH]; [reflexivity|]. cbn [forallb]. rewrite IH.
-  destruct (f x), (g x), (forallb f r), (forallb g r); reflexivity.
-Qed.
-
-Lemma forallb_negb_existsb : forall {A} (h : A -> bool) l,
-  forallb (fun x => negb (h x)) l = negb (existsb h l).
-Proof.
-  intros A h l. induction l as [|x r IH]; [reflexivity|]. cbn [forallb existsb]. rewrite IH.
-  destruct (h x), (existsb h r); reflexivity.
-Qed.
-
-Lemma forallb_ext_Forall : forall {A} (f g : A -> bool) l,
-  Forall (fun x => f x = g x) l -> forallb f l = forallb g l.
-Proof.
-  intros A f g l H. induction H as [|x r Hx _ IH]; [reflexivity|]. cbn [forallb]. rewrite Hx, IH. reflexivity.
-Qed.
-
-Lemma fmts_ok_classes : forall s, fmts_ok s = fmts_utf8 s && negb (cls_bom s).
-Proof.
-  induction s as [|b|f args IH|f args IH|a b|v|d a|l IH|x IH|n o] using snip_ind'; try reflexivity.
-  - cbn [fmts_ok fmts_utf8 cls_bom].
-    rewrite (forallb_ext_Forall (fun p => fmts_ok (snd p))
-               (fun p => fmts_utf8 (snd p) && negb (cls_bom (snd p))) args IH).
-    rewrite (forallb_andb (fun p => fmts_utf8 (snd p)) (fun p => negb (cls_bom (snd p)))).
-    rewrite (forallb_negb_existsb (fun p => cls_bom (snd p))). unfold fmt_ok.
-    destruct (utf8b (trim_nl f)), (has_bom (trim_nl f)), (forallb (fun p => fmts_utf8 (snd p)) args),
-      (existsb (fun p => cls_bom (snd p)) args); reflexivity.
-  - cbn [fmts_ok fmts_utf8 cls_bom].
-    rewrite (forallb_ext_Forall fmts_ok (fun p => fmts_utf8 p && negb (cls_bom p)) args IH).
-    rewrite (forallb_andb fmts_utf8 (fun p => negb (cls_bom p))).
-    rewrite (forallb_negb_existsb cls_bom). unfold fmt_ok.
-    destruct (utf8b f), (has_bom f), (forallb fmts_utf8 args), (existsb cls_bom args); reflexivity.
-  - cbn [fmts_ok fmts_utf8 cls_bom].
-    rewrite (forallb_ext_Forall fmts_ok (fun p => fmts_utf8 p && negb (cls_bom p)) l IH).
-    rewrite (forallb_andb fmts_utf8 (fun p => negb (cls_bom p))).
-    rewrite (forallb_negb_existsb cls_bom). reflexivity.
-  - cbn [fmts_ok fmts_utf8 cls_bom]. exact IH.
-Qed.
-
-Lemma render_dom_classes : forall s,
-  fmts_utf8 s = true -> cls_bom s = false -> cls_nolit s = false ->
-  render all_fixed s = spec_render same OutOfFuel s.
-Proof.
-  intros s Hu Hb Hn. apply render_dom; [|exact Hn]. rewrite fmts_ok_classes, Hu, Hb. reflexivity.
-Qed.
-
-(* ---------------------------------------------------------------------------------------- *)
 (* the statements of Props/C09.v *)
 
 Lemma template_tokens : forall (args : list (bytes * aview)) (f : bytes) (ts : list tok),
   Tokens (sc_view (trim_nl f)) ts -> tpl_impl all_fixed args f = subst args ts.
 Proof. intros args f ts H. rewrite (tokens_unique _ _ H). exact (tpl_spec args f). Qed.
 
-Lemma scanner_transparent : forall f, utf8 f -> has_bom f = false -> sc_view f = f.
-Proof.
-  intros f Hu Hb. apply sc_view_id. unfold fmt_ok. rewrite (utf8_utf8b _ Hu), Hb. reflexivity.
-Qed.
+Lemma scanner_transparent : forall f, utf8 f -> sc_view f = f.
+Proof. intros f Hu. apply sc_view_id. exact (utf8_utf8b _ Hu). Qed.
 
 Lemma template_faithful : forall args f ts,
-  utf8 (trim_nl f) -> has_bom (trim_nl f) = false -> Tokens (trim_nl f) ts ->
+  utf8 (trim_nl f) -> Tokens (trim_nl f) ts ->
   tpl_impl all_fixed args f = subst args ts.
 Proof.
-  intros args f ts Hu Hb H. apply template_tokens. rewrite (scanner_transparent _ Hu Hb). exact H.
+  intros args f ts Hu H. apply template_tokens. rewrite (scanner_transparent _ Hu). exact H.
 Qed.
 
 Lemma missing_panics : forall args f n a,
@@ -962,18 +918,23 @@ Lemma bare_at_old :
   subst [] (tokenize (bs "a@'b")) = Ok (bs "a@'b").
 Proof. repeat split; vm_compute; reflexivity. Qed.
 
-(* known finding leading_bom: text/scanner drops one leading U+FEFF *)
-Lemma bom_refuted :
+(* text/scanner drops one leading U+FEFF: before fixes/C09-5-leading-bom.diff a format lost it (T: after the trimmed
+   newlines); the repaired code keeps it on the same witnesses *)
+Definition before_bom_fix := mk_fixes true true true true false.
+Lemma bom_old :
   exists f, utf8b f = true /\
-    tpl_impl all_fixed [] f <> subst [] (tokenize (trim_nl f)) /\
-    sp_impl all_fixed f [] <> ssubst (stokenize f) [].
+    tpl_impl before_bom_fix [] f <> subst [] (tokenize (trim_nl f)) /\
+    sp_impl before_bom_fix f [] <> ssubst (stokenize f) [] /\
+    tpl_impl before_bom_fix [] (c_nl :: f) <> subst [] (tokenize (trim_nl (c_nl :: f))) /\
+    tpl_impl all_fixed [] f = subst [] (tokenize (trim_nl f)) /\
+    sp_impl all_fixed f [] = ssubst (stokenize f) [].
 Proof.
   exists (bom ++ bs "a"). repeat split; vm_compute; congruence.
 Qed.
 
 (* known finding value_literal_unavailable: Sprintf("%v", nil) — Value(nil) panics in the dumper *)
 Lemma nolit_refuted :
-  exists s, fmts_ok s = true /\ render all_fixed s = Panic /\ spec_render same OutOfFuel s = OutOfFuel.
+  exists s, fmts_utf8 s = true /\ render all_fixed s = Panic /\ spec_render same OutOfFuel s = OutOfFuel.
 Proof.
   exists (SSprintf (bs "%v") [SVal None None]). repeat split; vm_compute; reflexivity.
 Qed.
